@@ -660,6 +660,20 @@ func (s *Store) Open() (retErr error) {
 			return nil
 		}
 
+		// The SQLite file holds the state of the snapshot it was fingerprinted
+		// against. That is only the state to start from if that snapshot is still
+		// the newest one: Raft installs a snapshot sent by the Leader into the
+		// Snapshot Store first and only then has the database replaced, so a crash
+		// in between leaves a marker and a SQLite file that match each other but
+		// are older than the newest snapshot.
+		if fp.SnapshotIndex != 0 {
+			if li, _, err := snapshotStore.LatestIndexTerm(); err != nil || li != fp.SnapshotIndex {
+				s.logger.Printf("clean snapshot is for snapshot index %d, newest snapshot index is %d (%v), full restore needed",
+					fp.SnapshotIndex, li, err)
+				return nil
+			}
+		}
+
 		// The SQLite file is probably OK, so let's proceed. However we need to
 		// verify its checksum matches what we recorded at snapshot time. This is done
 		// asynchronously so as not to block startup. Writes will go into the WAL in
@@ -2784,7 +2798,7 @@ func (s *Store) fsmSnapshot() (fSnap raft.FSMSnapshot, retErr error) {
 				// database file if the snapshot really made it into the Snapshot Store.
 				if li, _, err := snapshot.LatestIndexTerm(s.snapshotDir); err != nil || li <= prevSnapIdx {
 					s.logger.Printf("%s snapshot persisted but not installed, not marking database as clean", dueNext)
-				} else if err := s.createSnapshotFingerprint(); err != nil {
+				} else if err := s.createSnapshotFingerprint(li); err != nil {
 					s.logger.Printf("failed to create snapshot fingerprint: %s", err)
 				}
 			}
@@ -2863,8 +2877,13 @@ func (s *Store) fsmRestore(rc io.ReadCloser) (retErr error) {
 		return fmt.Errorf("failed to remove stale WAL staging directory: %w", err)
 	}
 	s.logger.Printf("successfully opened database at %s due to restore", s.db.Path())
+	// The database just swapped in is the newest snapshot in the Snapshot Store.
+	li, tm, err := snapshot.LatestIndexTerm(s.snapshotDir)
+	if err != nil {
+		return fmt.Errorf("failed to get latest snapshot index post restore: %s", err)
+	}
 	// Installed SQLite database is safe for fast restarts again.
-	if err := s.createSnapshotFingerprint(); err != nil {
+	if err := s.createSnapshotFingerprint(li); err != nil {
 		return fmt.Errorf("failed to create snapshot fingerprint post restore: %s", err)
 	}
 
@@ -2873,10 +2892,6 @@ func (s *Store) fsmRestore(rc io.ReadCloser) (retErr error) {
 	// same value, since the last index is not necessarily a database-changing index,
 	// but that is OK. Worse that can happen is that anything paying attention to the
 	// index might consider the database to be changed when it is not, *logically* speaking.
-	li, tm, err := snapshot.LatestIndexTerm(s.snapshotDir)
-	if err != nil {
-		return fmt.Errorf("failed to get latest snapshot index post restore: %s", err)
-	}
 	s.fsmIdx.Store(li)
 	s.fsmTarget.Signal(li)
 	s.fsmTerm.Store(tm)
@@ -3118,7 +3133,9 @@ func (s *Store) selfLeaderChange(leader bool) {
 	}
 }
 
-func (s *Store) createSnapshotFingerprint() error {
+// createSnapshotFingerprint marks the SQLite file as holding exactly the state
+// of the snapshot with Raft index snapIdx.
+func (s *Store) createSnapshotFingerprint(snapIdx uint64) error {
 	tmpFP := s.cleanSnapshotPath + ".tmp"
 	defer os.Remove(tmpFP)
 	mt, err := s.db.DBLastModified()
@@ -3140,6 +3157,8 @@ func (s *Store) createSnapshotFingerprint() error {
 		ModTime: mt,
 		Size:    sz,
 		CRC32:   sum,
+
+		SnapshotIndex: snapIdx,
 	}
 	if err := fp.WriteToFile(tmpFP); err != nil {
 		return fmt.Errorf("failed to write snapshot fingerprint to temp file: %s", err)
